@@ -425,6 +425,7 @@ def run(chk):
 _V = "skgenome/tabio/vcfio.py"
 _Y = "cnvlib/vary.py"
 MUTANTS = [
+    dict(name="twin: mirrored BAF through np.where", expect="silent", file="cnvlib/vary.py", old="    if above_half:\n        return 0.5 + shift\n    return 0.5 - shift", new="    return 0.5 + shift if above_half else 0.5 - shift"),
     dict(name="regress: tumor_boost returned on a fresh index", file=_Y, old='        return self.as_series(_tumor_boost(self["alt_freq"].values, self["n_alt_freq"].values).values)', new='        return _tumor_boost(self["alt_freq"].values, self["n_alt_freq"].values)'),
     dict(name="start from record.pos", file=_V, old="        start = record.start\n", new="        start = record.pos\n"),
     dict(name="end ignores INFO/END", file=_V, old='    if "END" in info:\n        # Structural variant\n        return info["END"]\n', new=""),
